@@ -65,6 +65,10 @@ def randomly(ns, nd, evenly, mc, mode='plain'):
         if mode == 'alias':
             src_names = dest_names
             src_obj = dest_obj = list(dest_names)
+        elif mode == 'tuple':    # immutable sequences (the helper must not rely on mutating its arguments)
+            src_obj, dest_obj = tuple(src_names), tuple(dest_names)
+        elif mode == 'destiter':  # the destination set as a one-shot iterable (documented as "iterables"; the helper copies it)
+            src_obj, dest_obj = list(src_names), iter(list(dest_names))
         else:
             src_obj, dest_obj = list(src_names), list(dest_names)
         fp = [ns, nd, evenly, mc if mc != 'sym' else 'sym'] + ([mode] if mode != 'plain' else [])
@@ -119,15 +123,25 @@ def randomly(ns, nd, evenly, mc, mode='plain'):
     return h
 
 
-def many_to_one(ns):
+def many_to_one(ns, kind='list'):
+    """kind: the container handed over as src_set, which is declared Iterable[Entity]: list | tuple | iter (one-shot
+    iterator) | gen (generator expression) | chain (itertools.chain of two lists, as in docs/scenario-definition.rst)"""
     def h(eng):
+        import itertools
         import mosaik.util as U
         src = [f's{i}' for i in range(ns)]
+        arg = {'list': lambda: list(src), 'tuple': lambda: tuple(src), 'iter': lambda: iter(list(src)),
+               'gen': lambda: (x for x in list(src)), 'chain': lambda: itertools.chain(src[:ns // 2], src[ns // 2:])}[kind]()
         w = Recorder()
         ar = eng.flag('async_requests')
-        U.connect_many_to_one(w, src, 'dest', 'a', ('b', 'c'), async_requests=ar)
-        eng.check([c[0] for c in w.calls] == src and all(c[1] == 'dest' for c in w.calls), 'C18.many', 'not every source connected to the destination')
-        eng.check(all(c[2] == ('a', ('b', 'c')) and c[3] == {'async_requests': ar} for c in w.calls), 'C18.many', 'arguments not passed through')
+        try:
+            U.connect_many_to_one(w, arg, 'dest', 'a', ('b', 'c'), async_requests=ar)
+        except Exception as e:  # noqa
+            eng.alarm('C18.many', f'connect_many_to_one raised {type(e).__name__}: {e} for a {kind} of {ns} sources', {'fp': [kind, 'exc']})
+            return ('exception', {'nontrivial': True})
+        eng.check([c[0] for c in w.calls] == src and all(c[1] == 'dest' for c in w.calls), 'C18.many',
+                  f'not every source connected to the destination: src_set is a {kind} of {src}, connect calls {[c[:2] for c in w.calls]}', {'fp': [kind, 'calls']})
+        eng.check(all(c[2] == ('a', ('b', 'c')) and c[3] == {'async_requests': ar} for c in w.calls), 'C18.many', 'arguments not passed through', {'fp': [kind, 'args']})
         return ('ok', {'nontrivial': True})
     return h
 
@@ -147,6 +161,12 @@ def jobs(tier):
         for evenly, mc in ((True, 'inf'), (False, 'inf'), (False, 'sym')):
             out.append({'id': f'alias|{nd}|{int(evenly)}|{mc}', 'harness': 'vk.kernels.c18:randomly',
                         'params': {'ns': nd, 'nd': nd, 'evenly': evenly, 'mc': mc, 'mode': 'alias'}, 'budget_s': 300})
+    for ns in range(0, (3 if q else 4) + 1):
+        for nd in range(1, (2 if q else 3) + 1):
+            for evenly, mc in ((True, 'inf'), (False, 'sym')):
+                for mode in ('tuple', 'destiter'):
+                    out.append({'id': f'{mode}|{ns}|{nd}|{int(evenly)}|{mc}', 'harness': 'vk.kernels.c18:randomly',
+                                'params': {'ns': ns, 'nd': nd, 'evenly': evenly, 'mc': mc, 'mode': mode}, 'budget_s': 300})
     for ns in range(1, (3 if q else 4) + 1):
         for nd in range(2, (3 if q else 4) + 1):
             for evenly, mc in ((True, 'inf'), (False, 'sym')):
@@ -154,6 +174,7 @@ def jobs(tier):
                     continue     # two capped random calls over 4 x 4 do not finish within the budget
                 out.append({'id': f'twocall|{ns}|{nd}|{int(evenly)}|{mc}', 'harness': 'vk.kernels.c18:randomly',
                             'params': {'ns': ns, 'nd': nd, 'evenly': evenly, 'mc': mc, 'mode': 'twocall'}, 'budget_s': 300})
-    for ns in range(0, 4):
-        out.append({'id': f'many|{ns}', 'harness': 'vk.kernels.c18:many_to_one', 'params': {'ns': ns}})
+    for ns in range(0, 4 if q else 6):
+        for kind in ('list', 'tuple', 'iter', 'gen', 'chain'):
+            out.append({'id': f'many|{ns}|{kind}', 'harness': 'vk.kernels.c18:many_to_one', 'params': {'ns': ns, 'kind': kind}})
     return out
